@@ -7,7 +7,7 @@
    withdrawn) has been fixed in /repo; the model follows the source through gen/Gen_OracleSlash.v, the
    property is proved for the fixed variant (C13_unbond_once) and refuted for the pre-fix variant. *)
 From Coq Require Import ZArith List Bool.
-From FxV Require Import gen.Gen_OracleSlash model.M_OracleReg proofs.P_OracleReg proofs.P_OracleReg2 proofs.P_OracleRegStake proofs.P_OracleReg3.
+From FxV Require Import gen.Gen_OracleSlash model.M_OracleReg proofs.P_OracleReg proofs.P_OracleReg2 proofs.P_OracleRegStake proofs.P_OracleReg3 proofs.P_OracleRegCap.
 Import ListNotations.
 Open Scope Z_scope.
 
@@ -38,6 +38,39 @@ Theorem C13_export_import_preserves_registry : export_all_oracles = true ->
   bal_o s' = bal_o s /\ bal_d s' = bal_d s /\ burned s' = burned s /\ gov_und s' = gov_und s /\ vals s' = vals s.
 Proof. exact export_import_preserves_registry. Qed.
 Print Assumptions C13_export_import_preserves_registry.
+
+(* 1c. the 30 % power cap of UpdateProposalOracles: an accepted governance list update takes away no online power
+       or strictly less than floor(30 * online power / 100); the online power afterwards is exactly what was
+       there minus what was taken, so more than 70 % stays; the stored LastTotalPower is not refreshed; at or
+       above the cap the update is refused *)
+Theorem C13_gov_power_cap : forall s l rws s', reg_inv s -> step s (GovSet l rws) = Ok s' ->
+  let total := compute_power s in
+  let del := removed_power s l in
+  (del <= 0 \/ (del < Z.quot (change_power_pct * total) 100 /\ 100 * del < 30 * total)) /\
+  compute_power s' = total - del /\
+  (0 < del -> 70 * total < 100 * compute_power s') /\
+  total_power s' = total_power s.
+Proof. exact gov_power_cap. Qed.
+Print Assumptions C13_gov_power_cap.
+
+Theorem C13_gov_refused_over_cap : forall s l rws,
+  0 < removed_power s l -> Z.quot (change_power_pct * compute_power s) 100 <= removed_power s l ->
+  forall s', step s (GovSet l rws) <> Ok s'.
+Proof. exact gov_set_refused_over_cap. Qed.
+Print Assumptions C13_gov_refused_over_cap.
+
+Theorem C13_power_cap_nonvacuous :
+  (let s := run w_init w_setup in
+   compute_power s = 700 /\ removed_power s [2; 3; 4; 5; 6] = 200 /\
+   is_ok (step s (GovSet [2; 3; 4; 5; 6] [])) = true /\ compute_power (exec s (GovSet [2; 3; 4; 5; 6] [])) = 500 /\
+   total_power (exec s (GovSet [2; 3; 4; 5; 6] [])) = 700 /\
+   removed_power s [3; 4; 5; 6] = 300 /\ step s (GovSet [3; 4; 5; 6] []) = Err e_invalid) /\
+  (let s := run w_init w_ten in
+   compute_power s = 1000 /\ removed_power s [3; 4; 5; 6; 7; 8; 9] = 300 /\
+   step s (GovSet [3; 4; 5; 6; 7; 8; 9] []) = Err e_invalid /\
+   is_ok (step s (GovSet [2; 3; 4; 5; 6; 7; 8; 9] [])) = true).
+Proof. exact power_cap_nonvacuous. Qed.
+Print Assumptions C13_power_cap_nonvacuous.
 
 (* 2. only approved oracles bond, stake inside the bounds; recorded = transferred = delegated
       ([deleg] counts SHARES scaled 10^18; [rate1 s]: no validator has been slashed by staking, 1 share = 1 token) *)
